@@ -4,6 +4,7 @@ package h
 
 import (
 	"errors"
+	"strconv"
 
 	"github.com/d5/tengo/v2"
 	"verif/h/vf"
@@ -219,6 +220,132 @@ out := x`))
 		vf.Assert(len(lines) == 1 && files[0] == "(main)" && lines[0] == 4, "failure in main after a module call returned: "+rerr.Error())
 	}
 	vf.Reach("module")
+}
+
+// ---- systematic placement of the failing statement
+
+// failing statements; `@` marks where the statement starts (its line is the
+// expected location). $X is the function parameter (a string) where there is
+// one, a literal otherwise.
+var markForms = []string{
+	`@q := -$X`,
+	`@q := $X - 1`,
+	`@len(1, 2, 3)`,
+	`@$X()`,
+	`@q := [1]["k"]`,
+	`@for v in 5 { }`,
+	`@-$X`,
+}
+
+var deadBefore = []string{"", "if x == 0 { return 0; y := 2 }\n", "if x == 0 { return 0; y := 2; y = 3 }\n", "for i := 0; i < 1; i++ { if x == 0 { continue; y := [2] } }\n"}
+var markTails = []string{"", "\nreturn 1", "\nreturn 1\ny := 2", "\nreturn 1\ny := 2\ny = [3]"}
+var markLeads = []string{"", "pad := 1\n"}
+
+func countLines(s string, upto int) int {
+	n := 1
+	for i := 0; i < upto; i++ {
+		if s[i] == '\n' {
+			n++
+		}
+	}
+	return n
+}
+
+// C14_Marked: the failing statement is placed at the first byte / after a
+// lead statement, in main, a function, a module body or a module function,
+// with dead code before and after it and with or without a trailing return;
+// one or two modules; the compiled script run once or twice. Frame 0 must
+// name the file and line of the statement, every frame a file and a line.
+func C14_Marked() {
+	place := vf.Choice("place", 4)
+	form := markForms[vf.Choice("form", len(markForms))]
+	lead := markLeads[vf.Choice("lead", len(markLeads))]
+	dead, tail := "", ""
+	if place == 1 || place == 3 {
+		dead = deadBefore[vf.Choice("dead", len(deadBefore))]
+		tail = markTails[vf.Choice("tail", len(markTails))]
+	}
+	twoMods := vf.Choice("mods", 2) == 1
+	twice := vf.Choice("twice", 2) == 1
+	xarg := `"s"`
+	if place == 1 || place == 3 {
+		xarg = "x"
+	}
+	stmt := ""
+	for i := 0; i < len(form); i++ {
+		if form[i] == '$' && i+1 < len(form) && form[i+1] == 'X' {
+			stmt += xarg
+			i++
+			continue
+		}
+		stmt += string(form[i])
+	}
+	fn := "func(x) {\n" + dead + lead + stmt + tail + "\n}"
+	var mainSrc, modSrc, file string
+	switch place {
+	case 0: // main, top level
+		mainSrc, file = lead+stmt+"\nout := 1", "(main)"
+	case 1: // function in main
+		mainSrc, file = lead+"f := "+fn+"\nout := f(\"s\")", "(main)"
+	case 2: // module body: fails while the import expression is evaluated
+		modSrc, file = lead+stmt+"\nexport 1", "mod1"
+		mainSrc = "a := import(\"mod1\")"
+	default: // function exported by a module
+		modSrc, file = lead+"export "+fn, "mod1"
+		mainSrc = "import(\"mod1\")(\"s\")"
+	}
+	if twoMods {
+		mainSrc += "\nb := import(\"mod2\")"
+	}
+	marked := mainSrc
+	if place >= 2 {
+		marked = modSrc
+	}
+	at := indexOf(marked, "@")
+	wantLine := countLines(marked, at)
+	strip := func(t string) string {
+		out := ""
+		for i := 0; i < len(t); i++ {
+			if t[i] != '@' {
+				out += string(t[i])
+			}
+		}
+		return out
+	}
+	mods := tengo.NewModuleMap()
+	if place >= 2 {
+		mods.AddSourceModule("mod1", []byte(strip(modSrc)))
+	} else {
+		mods.AddSourceModule("mod1", []byte("export 1"))
+	}
+	mods.AddSourceModule("mod2", []byte("export 2\n"))
+	s := tengo.NewScript([]byte(strip(mainSrc)))
+	s.SetImports(mods)
+	cc, err := s.Compile()
+	what := "`" + strip(marked) + "` in " + file
+	vf.Assert(err == nil, "marked program compiles: "+what)
+	rerr, panicked, _ := RunGuarded(cc)
+	vf.Assert(!panicked && rerr != nil, "the marked statement fails: "+what)
+	if twice {
+		rerr2, panicked2, _ := RunGuarded(cc)
+		vf.Assert(!panicked2 && rerr2 != nil && rerr2.Error() == rerr.Error(), "a second run reports the same error and locations: "+what)
+		rerr = rerr2
+	}
+	msg := rerr.Error()
+	files, lines := parseTrace(msg)
+	nAt := 0
+	for i := 0; i+4 <= len(msg); i++ {
+		if msg[i:i+4] == "\tat " {
+			nAt++
+		}
+	}
+	vf.Assert(nAt >= 1 && nAt == len(lines), "every frame of the trace has a file:line:col location: "+msg)
+	for k := range files {
+		vf.Assert(files[k] == "(main)" || files[k] == "mod1", "every location names a source file of the program: "+msg)
+		vf.Assert(lines[k] >= 1, "every location has a line: "+msg)
+	}
+	vf.Assert(files[0] == file && lines[0] == wantLine, "the innermost location is the failing statement ("+file+" line "+strconv.Itoa(wantLine)+"): "+what+": "+msg)
+	vf.Reach("marked")
 }
 
 type hostErr struct{ code int }
